@@ -39,7 +39,9 @@ def dumps(d):
 # values that are safe for the two settings evo_config itself consumes
 SAFE_STR = {
     "pygments_style": ["monokai", "default", "vim", "native"],
-    "console_logging_format": ["%(message)s", "[%(levelname)s] %(message)s"],
+    "console_logging_format": ["%(message)s", "[%(levelname)s] %(message)s",
+                               "[%(levelname)s] %(message)s // %(name)s",
+                               "{%(levelname)s, } %(message)s"],
     # consumed by evo.tools.plot at import time (matplotlib / seaborn validate
     # them): valid values only, like the two above
     "plot_backend": ["Agg", "agg", "pdf", "svg"],
@@ -50,7 +52,9 @@ SAFE_STR = {
     "ros_map_viewport": ["update", "keep_unchanged", "zoom_to_map"],
     # the name of a pandas writer (df.to_<format>)
     "table_export_format": ["csv", "json"],
-    "table_export_data": ["stats", "info", "error_array"],
+    # (read through .lower() by evo_res)
+    "table_export_data": ["stats", "info", "error_array", "Error_Array",
+                          "Stats", "INFO"],
 }
 RESERVED_KEY = "__locked__"
 PLOT_IMPORT_KEYS = ("plot_backend", "plot_seaborn_enabled",
@@ -94,6 +98,10 @@ GENERIC_STR = [
     "--", "-.", "-", "-x", "--foo",
     # a literal dollar sign / tilde (API tokens, quoted paths)
     "$HOME", "tok_${HOME}_1", "~user",
+    # JSON punctuation inside a string
+    "tk_9f2c,]A7", "a, } b", "x,}", "[1,]",
+    # look like comments to a lenient reader
+    "a // b", "pk.eyJ1Ijo//Zm9v", "/* x */ y", "# no comment",
     # words that are the beginning of a parameter name
     "global", "save", "eule", "plot_mode", "tf_cache_max", "cons", "pygm",
     # look like numbers (a legend location code, an all-digit token): stored
